@@ -179,6 +179,9 @@ type Prop struct {
 	Level string // exploration | fault_enumeration
 	Rule  string // evidence: how cases are generated and what makes one non-trivial
 	Race  bool   // also run under the -race worker (HB-transparent scheduler)
+	// RaceWorkers, when > 0, is how many workers of a batch run the -race binary
+	// (default: half of them)
+	RaceWorkers int
 	// Gen draws case number i of a batch from the PRNG.
 	Gen func(r *Rand, tier string) *Case
 	// Fixed returns the enumerated part (grids, corpora); nil if none.
@@ -280,6 +283,46 @@ func GrammarViolation(prop string, conn int, t *Transcript) []Violation {
 	}
 	return []Violation{{Prop: prop, Rule: "malformed-backend-message",
 		Detail: fmt.Sprintf("conn %d: after %q: %v", conn, pgwire.Kinds(t.Msgs), t.Grammar), Sig: sig}}
+}
+
+// afterTimeoutVerdict judges a run in which one Read reported a transient
+// timeout (no byte lost, later reads succeed) against the undisturbed run of
+// the same case: a server that carries on answers everything exactly as in the
+// undisturbed run; one that gives the connection up has produced a prefix of
+// it (and may add one ErrorResponse saying why).
+func afterTimeoutVerdict(ref, cs *connState) (ok, carriedOn bool, detail string) {
+	rt, t := ParseOut(ref), ParseOut(cs)
+	if rt.Grammar != nil || t.Grammar != nil {
+		return true, false, ""
+	}
+	got := t.Msgs
+	after := 0
+	for _, m := range got {
+		if m.Off+t.Base >= cs.TimeoutOut {
+			after++
+		}
+	}
+	carriedOn = after > 1 || (after == 1 && got[len(got)-1].Type != 'E')
+	a, b := CallbackTrace(cs), CallbackTrace(ref)
+	if carriedOn {
+		if Canonical(got) != Canonical(rt.Msgs) {
+			return false, true, fmt.Sprintf("the server carried on and answered %q, the undisturbed run %q", pgwire.Kinds(got), pgwire.Kinds(rt.Msgs))
+		}
+		if a != b {
+			return false, true, fmt.Sprintf("the server carried on but its callbacks differ from those of the undisturbed run:\n  with timeout: %s\n  undisturbed:  %s", trunc(strings.ReplaceAll(a, "\n", "; "), 300), trunc(strings.ReplaceAll(b, "\n", "; "), 300))
+		}
+		return true, true, ""
+	}
+	if n := len(got); n > 0 && after == 1 {
+		got = got[:n-1]
+	}
+	if len(got) > len(rt.Msgs) || Canonical(got) != Canonical(rt.Msgs[:len(got)]) {
+		return false, false, fmt.Sprintf("the server answered %q, the undisturbed run %q - neither the same nor a prefix of it", pgwire.Kinds(t.Msgs), pgwire.Kinds(rt.Msgs))
+	}
+	if !strings.HasPrefix(b, a) {
+		return false, false, fmt.Sprintf("the callbacks that ran are not a prefix of those of the undisturbed run:\n  with timeout: %s\n  undisturbed:  %s", trunc(strings.ReplaceAll(a, "\n", "; "), 300), trunc(strings.ReplaceAll(b, "\n", "; "), 300))
+	}
+	return true, false, ""
 }
 
 // Canonical renders a transcript with every maximal run of ParameterStatus
